@@ -13,6 +13,9 @@ import (
 	"errors"
 	"fmt"
 	"io"
+	"net/http"
+	"net/http/httptest"
+	"net/url"
 	"os"
 	"os/signal"
 	"path/filepath"
@@ -34,6 +37,7 @@ import (
 	"grog/internal/model"
 	"grog/internal/output"
 	"grog/internal/proto/gen"
+	"grog/internal/worker"
 )
 
 // ------------------------------------------------------------------------------------------------
@@ -317,7 +321,12 @@ func newStoreEnv(req map[string]any) (*storeEnv, error) {
 	}
 	storesCaseCounter++
 	dir := filepath.Join(scratch, fmt.Sprintf("case-%d-%d", os.Getpid(), storesCaseCounter))
-	ws := filepath.Join(dir, "ws")
+	// the workspace root may live below awkwardly named directories (glob meta characters, spaces, unicode)
+	wsname := b2s(req["wsname"])
+	if wsname == "" {
+		wsname = "ws"
+	}
+	ws := filepath.Join(dir, wsname)
 	if err := os.MkdirAll(ws, 0755); err != nil {
 		return nil, err
 	}
@@ -339,6 +348,15 @@ func newStoreEnv(req map[string]any) (*storeEnv, error) {
 }
 
 func (e *storeEnv) close() { os.RemoveAll(e.dir) }
+
+// tracker returns a real ProgressTracker when the request asks for one: the handlers then wrap every stream they hand to
+// the CAS in a progress reader, which is a plain io.Reader (not an io.Seeker / io.ReaderFrom source), as in a real build.
+func tracker(req map[string]any) *worker.ProgressTracker {
+	if on, _ := req["progress"].(bool); on {
+		return worker.NewProgressTracker("verif", 0, func(worker.StatusUpdate) {})
+	}
+	return nil
+}
 
 // resetWorkspace replaces the workspace content by the given root entry (a "d" entry).
 func (e *storeEnv) resetWorkspace(root any) error {
@@ -366,6 +384,43 @@ func errClass(err error) string {
 		return "ok"
 	}
 	return "err"
+}
+
+// tamperInPlace modifies every regular file at / below path without replacing it (the inode stays the same).
+func tamperInPlace(path, how string) {
+	filepath.Walk(path, func(p string, info os.FileInfo, err error) error {
+		if err != nil || !info.Mode().IsRegular() {
+			return nil
+		}
+		switch how {
+		case "append":
+			if f, e := os.OpenFile(p, os.O_WRONLY|os.O_APPEND, 0); e == nil {
+				f.WriteString("tampered\n")
+				f.Close()
+			}
+		case "truncate":
+			os.Truncate(p, info.Size()/2)
+		case "overwrite":
+			if f, e := os.OpenFile(p, os.O_WRONLY, 0); e == nil {
+				f.WriteString("X")
+				f.Close()
+			}
+		case "chmod":
+			os.Chmod(p, info.Mode().Perm()^0111)
+		}
+		return nil
+	})
+}
+
+// loadResultTimed loads a target result; a load that does not return is reported as a hang.
+func loadResultTimed(ctx context.Context, tc *caching.TargetResultCache, key string) (*gen.TargetResult, error, bool) {
+	var res *gen.TargetResult
+	err, hung := withTimeout(opTimeout, func() error {
+		var e error
+		res, e = tc.Load(ctx, key)
+		return e
+	})
+	return res, err, hung
 }
 
 // quiesce waits until the directory tree stops changing. LoadOutputs returns on the first failing output while the
@@ -396,15 +451,23 @@ func setOpTimeout(req map[string]any) {
 
 // withTimeout runs f and reports "hang" if it does not return in time (the goroutine is abandoned).
 func withTimeout(d time.Duration, f func() error) (err error, hung bool) {
+	// circuit breaker: once several operations of this driver process have hung, the tree is broken in a way the check
+	// will report anyway (hangs are confirmed by a separate re-run); do not spend the full timeout on every further one
+	if hangCount.Load() >= 3 && d > 2*time.Second {
+		d = 2 * time.Second
+	}
 	done := make(chan error, 1)
 	go func() { done <- f() }()
 	select {
 	case err = <-done:
 		return err, false
 	case <-time.After(d):
+		hangCount.Add(1)
 		return nil, true
 	}
 }
+
+var hangCount atomic.Int64
 
 // casFiles lists cas/<digest> files (visible names only) with their content.
 func dirFiles(dir string) map[string][]byte {
@@ -440,8 +503,14 @@ func init() {
 		pkg := b2s(req["pkg"])
 		outs := parseOutputs(req["outputs"])
 		bin := b2s(req["bin"])
+		// "direct": the caching layer gets the concrete backend, as in grog itself (no recording wrapper in between: code that
+		// looks at the backend's dynamic type behaves as in production); the number of reads is then not observed
+		direct, _ := req["direct"].(bool)
 		rec := &recBackend{inner: env.fs}
 		cas := caching.NewCas(rec)
+		if direct {
+			cas = caching.NewCas(env.fs)
+		}
 		reg := output.NewRegistry(env.ctx, cas)
 		target := &model.Target{Label: label.TL(pkg, "t"), ChangeHash: "k1", Outputs: outs}
 		if bin != "" {
@@ -454,7 +523,7 @@ func init() {
 			return nil, err
 		}
 		res["before"] = before
-		result, werr := reg.WriteOutputs(env.ctx, target, nil)
+		result, werr := reg.WriteOutputs(env.ctx, target, tracker(req))
 		res["write"] = errClass(werr)
 		if werr != nil {
 			res["write_msg"] = werr.Error()
@@ -508,6 +577,9 @@ func init() {
 			rec2.plan = map[int]string{int(n): kind}
 		}
 		cas2 := caching.NewCas(rec2)
+		if direct {
+			cas2 = caching.NewCas(env.fs)
+		}
 		reg2 := output.NewRegistry(env.ctx, cas2)
 		outs2 := outs
 		if _, ok := req["declared2"]; ok {
@@ -517,7 +589,7 @@ func init() {
 		if bin != "" {
 			target2.BinOutput = model.NewOutput("file", bin)
 		}
-		lerr, hung := withTimeout(opTimeout, func() error { return reg2.LoadOutputs(env.ctx, target2, result, nil) })
+		lerr, hung := withTimeout(opTimeout, func() error { return reg2.LoadOutputs(env.ctx, target2, result, tracker(req)) })
 		switch {
 		case hung:
 			res["load"] = "hang"
@@ -547,6 +619,35 @@ func init() {
 			return nil, err
 		}
 		res["after"] = after
+		if tamper, _ := req["tamper"].(string); tamper != "" && lerr == nil && !hung {
+			// the restored outputs are modified IN PLACE (same inode: append / truncate / chmod), then the next build restores
+			// again: the cache must still deliver the cached bytes and modes
+			for _, o := range outs2 {
+				tamperInPlace(filepath.Join(env.ws, pkg, o.Identifier), tamper)
+			}
+			if bin != "" {
+				tamperInPlace(filepath.Join(env.ws, pkg, bin), tamper)
+			}
+			reg3 := output.NewRegistry(env.ctx, caching.NewCas(env.fs))
+			target3 := &model.Target{Label: label.TL(pkg, "t"), ChangeHash: "k1", Outputs: outs2}
+			if bin != "" {
+				target3.BinOutput = model.NewOutput("file", bin)
+			}
+			l3err, hung3 := withTimeout(opTimeout, func() error { return reg3.LoadOutputs(env.ctx, target3, result, tracker(req)) })
+			res["load3"] = errClass(l3err)
+			if hung3 {
+				res["load3"] = "hang"
+			}
+			if l3err != nil {
+				res["load3_msg"] = l3err.Error()
+			}
+			after3, err := listing(env.ws)
+			if err != nil {
+				return nil, err
+			}
+			res["after3"] = after3
+			res["cache_audit"], _ = auditCache(env.cache)
+		}
 		if _, ok := req["getfault"]; ok {
 			// the next build: a fresh process restores again, without faults, over whatever the failed restore left behind
 			quiesce(env.ws)
@@ -600,7 +701,11 @@ type traceLog struct {
 // waitIdle returns when no backend operation has been in flight for a short while.
 func (t *traceLog) waitIdle() {
 	idle := 0
-	for i := 0; i < 2000 && idle < 3; i++ {
+	limit := 2000
+	if hangCount.Load() >= 3 {
+		limit = 200 // operations that hang for good never become idle
+	}
+	for i := 0; i < limit && idle < 3; i++ {
 		if t.inflight.Load() == 0 {
 			idle++
 		} else {
@@ -1046,7 +1151,7 @@ func init() {
 					var res *gen.TargetResult
 					werr, hung := withTimeout(opTimeout, func() error {
 						var e error
-						res, e = reg.WriteOutputs(env.ctx, t.target(), nil)
+						res, e = reg.WriteOutputs(env.ctx, t.target(), tracker(req))
 						return e
 					})
 					switch {
@@ -1174,6 +1279,10 @@ func newMemRemote() *memRemote {
 
 func (m *memRemote) TypeName() string { return "mem" }
 
+// objKey: object keys are normalised like S3Cache/GCSCache.buildPath does (slashes around the key are trimmed), so that the
+// in-memory backend and the real S3Cache over the fake client address the same objects
+func objKey(ns, key string) string { return ns + "/" + strings.Trim(key, "/") }
+
 func (m *memRemote) fault(op, ns, key string) string {
 	for i, f := range m.faults {
 		if f.Op == op && (f.NS == "" || f.NS == ns) && (f.Key == "" || f.Key == key) {
@@ -1190,7 +1299,7 @@ func (m *memRemote) Get(ctx context.Context, path, key string) (io.ReadCloser, e
 	m.mu.Lock()
 	defer m.mu.Unlock()
 	f := m.fault("get", path, key)
-	b, ok := m.data[path+"/"+key]
+	b, ok := m.data[objKey(path, key)]
 	m.ops = append(m.ops, map[string]any{"op": "get", "ns": path, "k": key, "fault": f, "present": ok})
 	if f == "err" || f == "err-after" {
 		return nil, errInjected
@@ -1226,7 +1335,7 @@ func (m *memRemote) Set(ctx context.Context, path, key string, content io.Reader
 		return errInjected // everything was read, nothing stored (e.g. the final PUT failed)
 	}
 	m.mu.Lock()
-	m.data[path+"/"+key] = b
+	m.data[objKey(path, key)] = b
 	m.mu.Unlock()
 	if f == "err-after" {
 		return errInjected
@@ -1237,7 +1346,15 @@ func (m *memRemote) Set(ctx context.Context, path, key string, content io.Reader
 func (m *memRemote) Delete(ctx context.Context, path, key string) error {
 	m.mu.Lock()
 	defer m.mu.Unlock()
-	delete(m.data, path+"/"+key)
+	f := m.fault("delete", path, key)
+	m.ops = append(m.ops, map[string]any{"op": "delete", "ns": path, "k": key, "fault": f})
+	if f == "err" {
+		return errInjected // nothing deleted
+	}
+	delete(m.data, objKey(path, key))
+	if f != "" {
+		return errInjected // deleted, but an error is reported
+	}
 	return nil
 }
 
@@ -1245,7 +1362,7 @@ func (m *memRemote) Exists(ctx context.Context, path, key string) (bool, error) 
 	m.mu.Lock()
 	defer m.mu.Unlock()
 	f := m.fault("exists", path, key)
-	_, ok := m.data[path+"/"+key]
+	_, ok := m.data[objKey(path, key)]
 	m.ops = append(m.ops, map[string]any{"op": "exists", "ns": path, "k": key, "fault": f, "present": ok})
 	if f != "" {
 		return false, errInjected
@@ -1256,8 +1373,78 @@ func (m *memRemote) Exists(ctx context.Context, path, key string) (bool, error) 
 func (m *memRemote) has(ns, key string) bool {
 	m.mu.Lock()
 	defer m.mu.Unlock()
-	_, ok := m.data[ns+"/"+key]
+	_, ok := m.data[objKey(ns, key)]
 	return ok
+}
+
+// s3Fake is an S3Client backed by the memRemote object store (same fault plan): the real S3Cache composes the object keys.
+// Like AWSS3Adapter.PutObject it consumes the body before "sending" (fault kinds err-late / err-after happen after the body
+// was read, err before, err-mid after one byte).
+type s3Fake struct {
+	m      *memRemote
+	pfx    string // "<prefix>/<workspace identity>/", learnt from a probe
+	probe  string
+	bucket string
+}
+
+func (f *s3Fake) split(key string) (string, string, bool) {
+	rest := strings.TrimPrefix(key, f.pfx)
+	i := strings.Index(rest, "/")
+	if !strings.HasPrefix(key, f.pfx) || i < 0 {
+		return "", "", false
+	}
+	return rest[:i], rest[i+1:], true
+}
+
+func (f *s3Fake) GetObject(ctx context.Context, bucket, key string) (io.ReadCloser, error) {
+	ns, k, ok := f.split(key)
+	if !ok {
+		return nil, os.ErrNotExist
+	}
+	return f.m.Get(ctx, ns, k)
+}
+
+func (f *s3Fake) PutObject(ctx context.Context, bucket, key string, body io.Reader) error {
+	ns, k, ok := f.split(key)
+	if !ok {
+		return fmt.Errorf("unexpected key %s", key)
+	}
+	return f.m.Set(ctx, ns, k, body)
+}
+
+func (f *s3Fake) DeleteObject(ctx context.Context, bucket, key string) error {
+	ns, k, ok := f.split(key)
+	if !ok {
+		return nil
+	}
+	return f.m.Delete(ctx, ns, k)
+}
+
+func (f *s3Fake) ObjectExists(ctx context.Context, bucket, key string) (bool, error) {
+	if f.pfx == "" {
+		f.probe = key
+		return false, nil
+	}
+	ns, k, ok := f.split(key)
+	if !ok {
+		return false, nil
+	}
+	return f.m.Exists(ctx, ns, k)
+}
+
+// newS3Over builds the real S3Cache over the fake client and learns the key prefix it composes.
+func newS3Over(ctx context.Context, m *memRemote) (backends.CacheBackend, error) {
+	f := &s3Fake{m: m, bucket: "bkt"}
+	c, err := backends.NewS3CacheWithClient(ctx, config.S3CacheConfig{Bucket: "bkt", Prefix: "/team/cache/"}, f)
+	if err != nil {
+		return nil, err
+	}
+	_, _ = c.Exists(ctx, "PROBE", "K")
+	if !strings.HasSuffix(f.probe, "PROBE/K") {
+		return nil, fmt.Errorf("cannot learn the S3 key prefix from %q", f.probe)
+	}
+	f.pfx = strings.TrimSuffix(f.probe, "PROBE/K")
+	return c, nil
 }
 
 // allTiers is the optional backend interface introduced by the repair of F-remote-skip; it is declared here so that
@@ -1356,6 +1543,24 @@ func (c *callRec) Get(ctx context.Context, path, key string) (io.ReadCloser, err
 	return io.NopCloser(bytes.NewReader(data)), nil
 }
 
+// rawSet streams data into the wrapped backend through a reader that fails after `cut` bytes (a broken source stream:
+// the file being cached cannot be read any further, a docker layer stream ends early).
+func (c *callRec) rawSet(ctx context.Context, path, key string, data []byte, cut int) error {
+	c.log.inflight.Add(1)
+	defer c.log.inflight.Add(-1)
+	kl := c.log.lockFor(path, key)
+	kl.Lock()
+	defer kl.Unlock()
+	c.log.mu.Lock()
+	c.set[path+"/"+key] = append(c.set[path+"/"+key], data)
+	c.log.mu.Unlock()
+	err := c.inner.Set(ctx, path, key, &failingReader{bytes.NewReader(data), cut})
+	l, r := c.tiers(path, key)
+	c.log.add(map[string]any{"e": "set", "p": c.pid, "m": c.mach, "ns": path, "k": key, "refs": []string{}, "ok": err == nil, "l": l, "rem": r,
+		"hashOk": true, "raw": true, "cut": cut})
+	return err
+}
+
 // peek opens an entry through the wrapped backend, reads a single byte and closes the reader (a consumer that stops early).
 func (c *callRec) peek(ctx context.Context, path, key string) error {
 	c.log.inflight.Add(1)
@@ -1403,7 +1608,17 @@ func (c *callRec) Set(ctx context.Context, path, key string, content io.Reader) 
 	return err
 }
 
-func (c *callRec) Delete(ctx context.Context, path, key string) error { return c.inner.Delete(ctx, path, key) }
+func (c *callRec) Delete(ctx context.Context, path, key string) error {
+	c.log.inflight.Add(1)
+	defer c.log.inflight.Add(-1)
+	kl := c.log.lockFor(path, key)
+	kl.Lock()
+	defer kl.Unlock()
+	err := c.inner.Delete(ctx, path, key)
+	l, r := c.tiers(path, key)
+	c.log.add(map[string]any{"e": "delete", "p": c.pid, "m": c.mach, "ns": path, "k": key, "ok": err == nil, "l": l, "rem": r})
+	return err
+}
 
 // setRecorder remembers what was stored under each key (for the content check of later Gets).
 type setRecorder struct {
@@ -1548,14 +1763,41 @@ func init() {
 					remote.faults = append(remote.faults, rf)
 				}
 			}
+			fsizeLimit := int64(-1)
+			kept := remote.faults[:0]
+			for _, f := range remote.faults {
+				if f.Op == "fsize" {
+					fsizeLimit = int64(f.Nth) // {"op":"fsize","nth":L}: the local disk is full beyond L bytes per file during this step
+				} else {
+					kept = append(kept, f)
+				}
+			}
+			remote.faults = kept
 			remote.mu.Unlock()
 			pid++
+			var remoteBackend backends.CacheBackend = remote
+			if kind, _ := req["remote"].(string); kind == "s3" {
+				if remoteBackend, err = newS3Over(env.ctx, remote); err != nil {
+					return nil, err
+				}
+			}
 			var backend backends.CacheBackend
 			if do == "build-local" {
 				backend = &setRecorder{CacheBackend: fs, log: tl, set: sets} // a run without a remote cache configured
 			} else {
-				backend = &callRec{inner: backends.NewRemoteWrapper(fs, remote), fs: fs, remote: remote, log: tl, pid: pid, mach: mach, set: sets}
+				backend = &callRec{inner: backends.NewRemoteWrapper(fs, remoteBackend), fs: fs, remote: remote, log: tl, pid: pid, mach: mach, set: sets}
+				if direct, _ := req["direct"].(bool); direct {
+					backend = backends.NewRemoteWrapper(fs, remoteBackend) // concrete type, no events: oracles only
+				}
 			}
+			// the disk-full fault covers the cache operations (and restores into the workspace), not the harness' own
+			// materialisation of the workspace (= the target's command having run)
+			limitOn := func() {
+				if fsizeLimit >= 0 && do != "build-local" {
+					setFileSizeLimit(uint64(fsizeLimit))
+				}
+			}
+			limitOn()
 			tl.add(map[string]any{"e": "proc", "p": pid, "m": mach, "do": do})
 			cas := caching.NewCas(backend)
 			reg := output.NewRegistry(env.ctx, cas)
@@ -1592,7 +1834,11 @@ func init() {
 				case "peek":
 					// a consumer that stops reading early: open every blob the cached result references through the
 					// wrapper itself (not through the recorder), read one byte, close
-					cached, lerr := tc.Load(env.ctx, t.key)
+					cached, lerr, lhung := loadResultTimed(env.ctx, tc, t.key)
+					if lhung {
+						r["outcome"] = "hang"
+						break
+					}
 					if lerr != nil {
 						r["outcome"] = "miss"
 						break
@@ -1623,15 +1869,64 @@ func init() {
 					if hung {
 						r["outcome"] = "hang"
 					}
-				case "build", "build-local":
-					// the command ran: its outputs are in the workspace
+				case "taint", "untaint", "tainted":
+					// the taint cache is built over the same (two-tier) backend as in cmds/build.go and cmds/taint.go
+					tcache := caching.NewTaintCache(backend)
+					lbl := t.target().Label
+					var terr error
+					switch op.kind {
+					case "taint":
+						terr = tcache.Taint(env.ctx, lbl)
+					case "untaint":
+						terr = tcache.Clear(env.ctx, lbl)
+					default:
+						var yes bool
+						yes, terr = tcache.IsTainted(env.ctx, lbl)
+						r["tainted"] = yes
+					}
+					r["outcome"] = errClass(terr)
+				case "rawset":
+					// the source stream of a blob breaks in the middle: every file output of the target is streamed into the
+					// backend through a reader that fails after half of its bytes (and after 40000 bytes for large ones)
+					cr, _ := backend.(*callRec)
+					if cr == nil {
+						r["outcome"] = "miss"
+						break
+					}
+					liftFileSizeLimit()
 					if err := env.resetWorkspace(req["ws"]); err != nil {
 						return nil, err
 					}
+					limitOn()
+					r["outcome"] = "err"
+					for _, o := range t.outs {
+						data, rerr := os.ReadFile(filepath.Join(env.ws, t.pkg, o.Identifier))
+						if rerr != nil {
+							continue
+						}
+						for _, cut := range []int{len(data) / 2, 40000} {
+							if cut >= len(data) {
+								continue
+							}
+							e, hung := withTimeout(opTimeout, func() error { return cr.rawSet(env.ctx, "cas", hashing.HashBytes(data), data, cut) })
+							if hung {
+								r["outcome"] = "hang"
+							} else if e == nil {
+								r["outcome"] = "ok" // a Set whose source failed must not report success
+							}
+						}
+					}
+				case "build", "build-local":
+					// the command ran: its outputs are in the workspace
+					liftFileSizeLimit()
+					if err := env.resetWorkspace(req["ws"]); err != nil {
+						return nil, err
+					}
+					limitOn()
 					var res *gen.TargetResult
 					werr, hung := withTimeout(opTimeout, func() error {
 						var e error
-						res, e = reg.WriteOutputs(env.ctx, t.target(), nil)
+						res, e = reg.WriteOutputs(env.ctx, t.target(), tracker(req))
 						if e == nil {
 							e = tc.Write(env.ctx, res)
 						}
@@ -1663,17 +1958,33 @@ func init() {
 						b, _ := proto.MarshalOptions{Deterministic: true}.Marshal(res)
 						tl.add(map[string]any{"e": "local", "m": mach, "ns": "target", "k": t.key, "refs": tl.refsOf("target", t.key, b)})
 					}
-				case "restore":
-					cached, lerr := tc.Load(env.ctx, t.key)
+				case "restore", "restore-blocked":
+					cached, lerr, lhung := loadResultTimed(env.ctx, tc, t.key)
+					if lhung {
+						r["outcome"] = "hang"
+						break
+					}
 					if lerr != nil {
 						r["outcome"] = "miss"
 						break
 					}
-					// an empty workspace on this machine
+					// an empty workspace on this machine; "restore-blocked": a directory sits where each file output should be
 					for _, o := range t.outs {
 						os.RemoveAll(filepath.Join(env.ws, t.pkg, o.Identifier))
+						if op.kind == "restore-blocked" && o.Type == "file" {
+							os.MkdirAll(filepath.Join(env.ws, t.pkg, o.Identifier, "in-the-way"), 0755)
+						}
 					}
-					rerr, hung := withTimeout(opTimeout, func() error { return reg.LoadOutputs(env.ctx, t.target(), cached, nil) })
+					rerr, hung := withTimeout(opTimeout, func() error { return reg.LoadOutputs(env.ctx, t.target(), cached, tracker(req)) })
+					if op.kind == "restore-blocked" {
+						quiesce(env.ws)
+						for _, o := range t.outs {
+							// a directory still in the way (the restore refused to replace it) is cleared for the following steps
+							if info, e := os.Lstat(filepath.Join(env.ws, t.pkg, o.Identifier)); o.Type == "file" && e == nil && info.IsDir() {
+								os.RemoveAll(filepath.Join(env.ws, t.pkg, o.Identifier))
+							}
+						}
+					}
 					switch {
 					case hung:
 						r["outcome"] = "hang"
@@ -1700,6 +2011,7 @@ func init() {
 			}
 			// a failed WriteOutputs returns while other uploads of the same target are still running
 			tl.waitIdle()
+			liftFileSizeLimit()
 			step["results"] = results
 			step["dangling"] = remoteClosure(remote)
 			// content audit of every machine's local cache (blobs hash to their names, results decode and are closed
@@ -1816,5 +2128,61 @@ func init() {
 		}
 		return map[string]any{"ok": true, "objects": out, "ws": s2b(strings.Trim(config.GetWorkspaceCachePrefix(root), "/")), "root": s2b(root),
 			"local_cache_dir_name": s2b(filepath.Base(config.Global.GetWorkspaceRootDir()))}, nil
+	})
+}
+
+// ------------------------------------------------------------------------------------------------
+// C08: object names composed by the real GCSCache (recording HTTP server behind STORAGE_EMULATOR_HOST)
+// ------------------------------------------------------------------------------------------------
+
+type gcsRecorder struct {
+	mu      sync.Mutex
+	objects [][2]string
+}
+
+func (g *gcsRecorder) ServeHTTP(w http.ResponseWriter, r *http.Request) {
+	p := r.URL.EscapedPath()
+	if i := strings.Index(p, "/b/"); i >= 0 {
+		rest := p[i+3:]
+		if j := strings.Index(rest, "/o/"); j >= 0 {
+			bucket, _ := url.PathUnescape(rest[:j])
+			object, _ := url.PathUnescape(rest[j+3:])
+			g.mu.Lock()
+			g.objects = append(g.objects, [2]string{bucket, object})
+			g.mu.Unlock()
+		}
+	}
+	w.Header().Set("Content-Type", "application/json")
+	w.WriteHeader(http.StatusNotFound)
+	w.Write([]byte(`{"error":{"code":404,"message":"No such object","errors":[{"reason":"notFound"}]}}`))
+}
+
+func init() {
+	// {"op":"store.gcspath","bucket","prefix","root","shared":bool,"calls":[[path,key],..]} -> {"objects":[[bucket,object],..]}
+	register("store.gcspath", func(req map[string]any) (any, error) {
+		rec := &gcsRecorder{}
+		srv := httptest.NewServer(rec)
+		defer srv.Close()
+		os.Setenv("STORAGE_EMULATOR_HOST", strings.TrimPrefix(srv.URL, "http://"))
+		defer os.Unsetenv("STORAGE_EMULATOR_HOST")
+		root := b2s(req["root"])
+		config.Global = config.WorkspaceConfig{Root: "/nonexistent", WorkspaceRoot: root, LogLevel: "error", LogOutputPath: "stderr"}
+		ctx, cancel := context.WithTimeout(console.WithLogger(context.Background(), console.InitLogger()), 20*time.Second)
+		defer cancel()
+		shared, _ := req["shared"].(bool)
+		c, err := backends.NewGCSCache(ctx, config.GCSCacheConfig{Bucket: b2s(req["bucket"]), Prefix: b2s(req["prefix"]), SharedCache: shared})
+		if err != nil {
+			return map[string]any{"ok": false, "msg": err.Error()}, nil
+		}
+		calls, _ := req["calls"].([]any)
+		for _, cl := range calls {
+			p, _ := cl.([]any)
+			_, _ = c.Exists(ctx, b2s(p[0]), b2s(p[1]))
+		}
+		out := []any{}
+		for _, o := range rec.objects {
+			out = append(out, []any{s2b(o[0]), s2b(o[1])})
+		}
+		return map[string]any{"ok": true, "objects": out}, nil
 	})
 }
